@@ -161,6 +161,7 @@ def read_swan(filename, dirorder=True, as_site=False):
             data=lons, coords={attrs.SITENAME: sites}, dims=[attrs.SITENAME]
         )
 
+    dset = dset.sortby(attrs.TIMENAME)
     set_spec_attributes(dset)
     if "dir" in dset and len(dset.dir) > 1:
         dset[attrs.SPECNAME].attrs.update(
